@@ -640,6 +640,17 @@ def PEl_types(res):
     return type(res)
 
 
+def unit_reduce_native_bounded():
+    """BOUNDED (never counted as proved): ufunc.reduce on tensor and discretized elements for integer, negative and tuple axes against NumPy on the arrays (the result
+    space of a discretized reduce is partition algebra outside the deductive units)"""
+    def run(ctx):
+        from contracts import replay_c17
+        for case, bad in replay_c17.reduce_native_cases():
+            ctx.bounded('reduce agrees with NumPy on the underlying array', not bad, case, detail=bad)
+    return Unit('reduce-native/axes', run, funcs=['odl.discr.discr_space:DiscretizedSpaceElement.__array_ufunc__', 'odl.space.npy_tensors:NumpyTensor.__array_ufunc__'], kind='B',
+                bounded_in='5 spaces (2-3 axes) x 3 ufuncs x 9-12 axis arguments')
+
+
 def replay(ob):
     from contracts import replay_c17
     return replay_c17.replay(ob)
@@ -661,6 +672,7 @@ def units(tier, seed):
             us.append(unit_discr(method, outk))
     us.append(unit_errors())
     us.append(unit_element())
+    us.append(unit_reduce_native_bounded())
     for with_out in (False, True):
         us.append(unit_pspace_legacy(1, 1, 'none', with_out))
         us.append(unit_pspace_legacy(1, 2, 'none', with_out))
